@@ -20,23 +20,32 @@ def obligations(cx):
     for vp in ('antoine', 'frost'):
         c = W.component(src, '1', vp)
         pre = [Tt > 0]
-        P = only_return(cx.explore(call(src, 'Component.get_vapor_pressure', [Tt], self_obj=c), pre=pre), 'get_vapor_pressure[%s]' % vp)
-        H = only_return(cx.explore(call(src, 'Component.get_vaporisation_heat', [Tt], self_obj=c), pre=pre), 'get_vaporisation_heat[%s]' % vp)
-        if not isinstance(P.value, T) or not isinstance(H.value, T): raise Unsupported("non-numeric result of the vapour-pressure functions")
+        Ps = returns(cx.explore(call(src, 'Component.get_vapor_pressure', [Tt], self_obj=c), pre=pre))
+        Hs = returns(cx.explore(call(src, 'Component.get_vaporisation_heat', [Tt], self_obj=c), pre=pre))
+        if not Ps or not Hs: raise Unsupported("no normal path of the vapour-pressure functions [%s]" % vp)
+        if any(not isinstance(q.value, T) for q in Ps + Hs): raise Unsupported("non-numeric result of the vapour-pressure functions")
         rg = dict(T=(250.0, 450.0), vpa1=(1.0, 10.0), vpb1=(-3000.0, -500.0), vpc1=(-80.0, 20.0), M1=(10, 200))
         if vp == 'frost': rg.update(vpa1=(10.0, 20.0), vpb1=(-6000.0, -3000.0), vpc1=(-2e5, 2e5))
-        differential(cx, 'Component.get_vapor_pressure', c, [Tt], {}, [P], rg, label=vp)
-        differential(cx, 'Component.get_vaporisation_heat', c, [Tt], {}, [H], rg, label=vp)
-        lnP = log(P.value)
-        dlnP = D(lnP, 'T')
-        check_D(lnP, 'T', dlnP, dict(T=(250.0, 450.0), vpa1=(1.0, 10.0), vpb1=(-3000.0, -500.0), vpc1=(-80.0, 20.0)))
-        hyps = P.pc + H.pc
-        cx.ob("cc.%s" % vp, hyps, eq(H.value * 1000, R * Tt * Tt * dlnP), function='Component.get_vaporisation_heat',
-              statement="heat of vaporisation [J/mol] == R T^2 dln(Psat)/dT", ranges=dict(T=(250, 450)))
-        cx.cover("cc.%s" % vp, hyps)
-        cx.must_fail("cc.%s" % vp, hyps, eq(H.value * 1000, R * Tt * dlnP))
-        # Psat itself is positive (it is an exponential) - needed by callers that take its logarithm
-        cx.ob("psat.positive.%s" % vp, hyps, P.value > 0, function='Component.get_vapor_pressure')
+        differential(cx, 'Component.get_vapor_pressure', c, [Tt], {}, Ps, rg, label=vp)
+        differential(cx, 'Component.get_vaporisation_heat', c, [Tt], {}, Hs, rg, label=vp)
+        # every pair of (pressure path, heat path): a branch on the constants in one of the two functions only is a pair too
+        npair = 0
+        for i, P in enumerate(Ps):
+            lnP = log(P.value)
+            dlnP = D(lnP, 'T')
+            check_D(lnP, 'T', dlnP, dict(T=(250.0, 450.0), vpa1=(1.0, 10.0), vpb1=(-3000.0, -500.0), vpc1=(-80.0, 20.0)))
+            cx.ob("psat.positive.%s%s" % (vp, ".%d" % i if i else ""), P.pc, P.value > 0, function='Component.get_vapor_pressure')
+            for j, H in enumerate(Hs):
+                hyps = P.pc + H.pc
+                tag = vp + (".%d.%d" % (i, j) if (i or j) else "")
+                cx.ob("cc.%s" % tag, hyps, eq(H.value * 1000, R * Tt * Tt * dlnP), function='Component.get_vaporisation_heat',
+                      statement="heat of vaporisation [J/mol] == R T^2 dln(Psat)/dT", ranges=dict(T=(250, 450)))
+                from .lockstep import feasible
+                if feasible(hyps):
+                    npair += 1
+                    cx.cover("cc.%s" % tag, hyps)
+                    cx.must_fail("cc.%s" % tag, hyps, eq(H.value * 1000, R * Tt * dlnP))
+        cx.ob("cc.%s.pairs" % vp, [], blit(npair >= 1), kind='paths', function='Component.get_vaporisation_heat')
     # unknown equation type: both functions raise instead of returning a number
     c = W.component(src, '1', 'other')
     for q in ('Component.get_vapor_pressure', 'Component.get_vaporisation_heat'):
